@@ -373,3 +373,237 @@ Proof.
     destruct (pal_shade_spec (bgpColour s) bg Hbgp Hbgr) as (e & Ee & Eg & ->).
     rewrite Ee. cbn [bind]. rewrite Eg. reflexivity.
 Qed.
+
+Corollary render_pixel_spec_hyp s x y :
+  hyp s -> x < 160 -> y < 144 -> render_pixel s (overlaps_for_line s y) x y = Ok (spec_pixel s x y).
+Proof.
+  intros (Hwf & Hregs & Hlines) Hx Hy.
+  apply render_pixel_spec; try assumption. apply Hlines. lia.
+Qed.
+
+(* ---------------------------------------------------------------------------------------------------- *)
+(* no Go panic: every index stays inside its array, for every scene, every flag list and every pixel *)
+
+Lemma read_tile_pixel_ok s tn ox oy :
+  byte_mem (vram s) -> tn < 512 -> ox < 8 -> oy < 8 ->
+  exists p, read_tile_pixel s tn ox oy = Ok p /\ p < 4.
+Proof.
+  intros Hb Ht Hx Hy. rewrite read_tile_pixel_spec by assumption.
+  eexists. split; [reflexivity|].
+  pose proof (tile_colour_range s (16 * Z.of_N tn) (Z.of_N ox) (Z.of_N oy)). lia.
+Qed.
+
+Lemma map_pixel_ok s high x y :
+  byte_mem (vram s) -> x < 256 -> y < 256 -> exists p, map_pixel s high x y = Ok p /\ p < 4.
+Proof.
+  intros Hb Hx Hy. rewrite map_pixel_spec by assumption.
+  eexists. split; [reflexivity|].
+  unfold map_colour.
+  match goal with |- Z.to_N (tile_colour ?a ?b ?c ?d) < 4 => pose proof (tile_colour_range a b c d) end. lia.
+Qed.
+
+Lemma sprite_tile_pixel_ok s x y sx sy tn at_ :
+  byte_mem (vram s) -> tn < 256 -> exists p, sprite_tile_pixel s x y sx sy tn at_ = Ok p /\ p < 4.
+Proof.
+  intros Hb Ht. unfold sprite_tile_pixel.
+  apply read_tile_pixel_ok; [assumption | lia | |].
+  - destruct (flag at_ 32); unfold sub8; lia.
+  - destruct (flag at_ 64); unfold sub8; lia.
+Qed.
+
+Lemma sprite_scan_ok s x y :
+  byte_mem (vram s) -> byte_mem (oam s) ->
+  forall l st, Forall (fun e => fst e < 40) l -> spritePixel st < 4 ->
+  exists st', sprite_scan s x y l st = Ok st' /\ spritePixel st' < 4.
+Proof.
+  intros Hv Ho. induction l as [|[i ov] l IH]; intros st HF Hp.
+  - exists st. split; [reflexivity | exact Hp].
+  - inversion HF as [|? ? Hi HF']; subst. cbn [fst] in Hi.
+    cbn [sprite_scan]. destruct ov; cbn [negb]; [|apply IH; assumption].
+    rewrite (oam_at_obj s i 1 Hi) by lia. cbn [bind].
+    destruct ((Mem.get (oam s) (4 * i + 1) <=? u8 (x + 8)) && (x <? Mem.get (oam s) (4 * i + 1))).
+    + rewrite (oam_at_obj0 s i Hi), (oam_at_obj s i 2 Hi), (oam_at_obj s i 3 Hi) by lia. cbn [bind].
+      destruct (sprite_tile_pixel_ok s x y (Mem.get (oam s) (4 * i + 1)) (Mem.get (oam s) (4 * i))
+                  (Mem.get (oam s) (4 * i + 2)) (Mem.get (oam s) (4 * i + 3)) Hv) as (p & Ep & Hp4);
+        [apply Ho|].
+      rewrite Ep. cbn [bind].
+      destruct (0 <? p).
+      * eexists. split; [reflexivity | exact Hp4].
+      * apply IH; [assumption | exact Hp4].
+    + apply IH; [assumption | exact Hp].
+Qed.
+
+Lemma sprite_list_lt ov : Forall (fun e => fst e < 40) (sprite_list ov).
+Proof.
+  apply Forall_forall. intros [i b] Hin. unfold sprite_list in Hin.
+  apply in_combine_l in Hin. apply In_upto in Hin. cbn [fst]. lia.
+Qed.
+
+Lemma pal_grey_ok p c : pal_ok p -> c < 4 -> exists e, pal_get p c = Ok e /\ grey_at e = Ok e.
+Proof.
+  intros Hp Hc. destruct (shade_of_pal p c Hp Hc) as (e & Ee & He & _).
+  exists e. split; [exact Ee | apply grey_at_ok; exact He].
+Qed.
+
+Lemma obj_shade_ok s st : scene_wf s -> spritePixel st < 4 -> exists g, obj_shade s st = Ok g.
+Proof.
+  intros (_ & _ & _ & _ & Hp0 & Hp1) Hp. unfold obj_shade.
+  destruct (useSpritePalette1 st);
+    [destruct (pal_grey_ok (obp1Colour s) _ Hp1 Hp) as (e & Ee & Eg)
+    |destruct (pal_grey_ok (obp0Colour s) _ Hp0 Hp) as (e & Ee & Eg)];
+    rewrite Ee; cbn [bind]; eexists; exact Eg.
+Qed.
+
+Theorem render_pixel_full_ok s ov x y :
+  scene_wf s -> exists r, render_pixel_full s ov x y = Ok r /\ fst r < 4.
+Proof.
+  intros Hwf. pose proof Hwf as (Hv & Ho & _ & Hbgp & _).
+  assert (Hscan : exists st,
+             (if spritesEnabled s then sprite_scan s x y (sprite_list ov) ss_init else Ok ss_init) = Ok st /\
+             spritePixel st < 4).
+  { destruct (spritesEnabled s).
+    - apply sprite_scan_ok; [assumption | assumption | apply sprite_list_lt | cbn; lia].
+    - exists ss_init. split; [reflexivity | cbn; lia]. }
+  destruct Hscan as (st & Est & Hp).
+  unfold render_pixel_full. rewrite Est. cbn [bind]. cbv zeta.
+  destruct (obj_shade_ok s st Hwf Hp) as (g & Eg).
+  assert (Hg : g < 4).
+  { unfold obj_shade in Eg. destruct (pal_get _ _) as [e| |]; cbn [bind] in Eg; try discriminate.
+    unfold grey_at in Eg. destruct (N.ltb_spec e 4); [|discriminate]. injection Eg as <-. assumption. }
+  destruct (spritesEnabled s && (0 <? spritePixel st) && negb (spriteBehindBackground st)).
+  - rewrite Eg. cbn [bind]. eexists. split; [reflexivity | exact Hg].
+  - assert (Hpix : exists pixel,
+               (if windowEnabled s && (wx s <=? 166) && (wy s <=? 143) && (sub8 (wx s) 7 <=? x) && (wy s <=? y)
+                then find_window_pixel s (sub8 x (sub8 (wx s) 7)) (sub8 y (wy s))
+                else if bgEnabled s then find_background_pixel s x y else Ok 0) = Ok pixel /\ pixel < 4).
+    { destruct (windowEnabled s && (wx s <=? 166) && (wy s <=? 143) && (sub8 (wx s) 7 <=? x) && (wy s <=? y)).
+      - apply map_pixel_ok; [assumption | unfold sub8; lia | unfold sub8; lia].
+      - destruct (bgEnabled s).
+        + apply map_pixel_ok; [assumption | apply u8_lt | apply u8_lt].
+        + exists 0. split; [reflexivity | lia]. }
+    destruct Hpix as (pixel & Epix & Hpix). rewrite Epix. cbn [bind].
+    destruct ((pixel =? 0) && negb (spritePixel st =? 0) && spriteBehindBackground st).
+    + rewrite Eg. cbn [bind]. eexists. split; [reflexivity | exact Hg].
+    + destruct (shade_of_pal (bgpColour s) pixel Hbgp Hpix) as (e & Ee & He & _).
+      rewrite Ee. cbn [bind]. rewrite (grey_at_ok e He). cbn [bind].
+      eexists. split; [reflexivity | exact He].
+Qed.
+
+Theorem render_pixel_no_crash s ov x y : scene_wf s -> is_ok (render_pixel s ov x y) = true.
+Proof.
+  intros Hwf. destruct (render_pixel_full_ok s ov x y Hwf) as (r & Er & _).
+  unfold render_pixel. rewrite Er. reflexivity.
+Qed.
+
+Theorem render_pixel_shade_range s ov x y g : scene_wf s -> render_pixel s ov x y = Ok g -> g < 4.
+Proof.
+  intros Hwf E. destruct (render_pixel_full_ok s ov x y Hwf) as (r & Er & Hr).
+  unfold render_pixel in E. rewrite Er in E. cbn [bind] in E. injection E as <-. exact Hr.
+Qed.
+
+(* ---------------------------------------------------------------------------------------------------- *)
+(* the palette tables are what the register writes store: the table read back as a register byte is the byte
+   written (BGP), resp. agrees with it on the three fields an object colour can select (OBP0 / OBP1) *)
+
+Lemma write_bgp_sweep :
+  forallb (fun v => (pal_reg (write_bgp v) =? Z.of_N v)%Z &&
+                    (c0 (write_bgp v) <? 4) && (c1 (write_bgp v) <? 4) && (c2 (write_bgp v) <? 4) &&
+                    (c3 (write_bgp v) <? 4)) bytes = true.
+Proof. vm_compute. reflexivity. Qed.
+
+Lemma write_bgp_spec v : v < 256 -> pal_reg (write_bgp v) = Z.of_N v /\ pal_ok (write_bgp v).
+Proof.
+  intros Hv. pose proof (sweep_bytes _ write_bgp_sweep v Hv) as H. cbv beta in H.
+  unfold pal_ok. lia.
+Qed.
+
+Definition obp_check (v : N) : bool :=
+  forallb (fun k =>
+    let p := write_obp (mkPal k 0 0 0) v in
+    (c1 p <? 4) && (c2 p <? 4) && (c3 p <? 4) &&
+    forallb (fun c => (shade_of (pal_reg p) (Z.of_N c) =? shade_of (Z.of_N v) (Z.of_N c))%Z) [1; 2; 3])
+    (upto 4).
+
+Lemma write_obp_sweep : forallb obp_check bytes = true.
+Proof. vm_compute. reflexivity. Qed.
+
+Lemma write_obp_spec old v : v < 256 -> c0 old < 4 ->
+  pal_ok (write_obp old v) /\
+  forall c, (1 <= c <= 3)%Z -> shade_of (pal_reg (write_obp old v)) c = shade_of (Z.of_N v) c.
+Proof.
+  intros Hv H0. pose proof (sweep_bytes _ write_obp_sweep v Hv) as H. unfold obp_check in H.
+  pose proof (sweep_upto 4 _ H (c0 old) H0) as H1. cbv beta zeta in H1.
+  change (write_obp (mkPal (c0 old) 0 0 0) v) with (write_obp old v) in H1.
+  apply andb_prop in H1. destruct H1 as [H1 Hsh]. apply andb_prop in H1. destruct H1 as [H1 H3].
+  apply andb_prop in H1. destruct H1 as [H1 H2].
+  split.
+  - unfold pal_ok. cbn [write_obp c0]. repeat split; [exact H0 | | |]; apply N.ltb_lt; assumption.
+  - intros c Hc. rewrite forallb_forall in Hsh.
+    specialize (Hsh (Z.to_N c)). replace (Z.of_N (Z.to_N c)) with c in Hsh by lia.
+    apply Z.eqb_eq. apply Hsh.
+    assert (Hcase : (c = 1 \/ c = 2 \/ c = 3)%Z) by lia.
+    destruct Hcase as [ -> | [ -> | -> ] ]; cbn; auto.
+Qed.
+
+(* ---------------------------------------------------------------------------------------------------- *)
+(* the hypotheses are decidable *)
+
+Definition line_ok_b (s : scene) (y : Z) : bool :=
+  (length (filter (obj_on_line s y) (upto 40)) <=? 10)%nat &&
+  forallb (fun i => forallb (fun j =>
+     negb ((i <? j) && obj_on_line s y i && obj_on_line s y j) || (obj_x s i <=? obj_x s j)%Z)
+     (upto 40)) (upto 40).
+
+Lemma sorted_check_sound (on : N -> bool) (xv : N -> Z) :
+  forallb (fun i => forallb (fun j => negb ((i <? j) && on i && on j) || (xv i <=? xv j)%Z) (upto 40)) (upto 40)
+  = true ->
+  forall i j, i < j < 40 -> on i = true -> on j = true -> (xv i <= xv j)%Z.
+Proof.
+  intros Hord i j Hij Hi Hj.
+  assert (Hi40 : In i (upto 40)) by (apply In_upto; change (N.of_nat 40) with 40; lia).
+  assert (Hj40 : In j (upto 40)) by (apply In_upto; change (N.of_nat 40) with 40; lia).
+  rewrite forallb_forall in Hord. specialize (Hord i Hi40).
+  rewrite forallb_forall in Hord. specialize (Hord j Hj40).
+  rewrite Hi, Hj in Hord. lia.
+Qed.
+
+Lemma line_ok_b_sound s y : line_ok_b s y = true -> line_ok s y.
+Proof.
+  unfold line_ok_b, line_ok. intros H. apply andb_prop in H. destruct H as [Hlen Hord].
+  split; [apply Nat.leb_le; exact Hlen|].
+  exact (sorted_check_sound (obj_on_line s y) (obj_x s) Hord).
+Qed.
+
+Definition all_lines (f : Z -> bool) : bool := forallb (fun y => f (Z.of_N y)) (upto 144).
+
+Lemma in_upto_144 y : (0 <= y < 144)%Z -> In (Z.to_N y) (upto 144).
+Proof. intros Hy. apply In_upto. change (N.of_nat 144) with 144. lia. Qed.
+
+Lemma all_lines_sound (f : Z -> bool) : all_lines f = true -> forall y, (0 <= y < 144)%Z -> f y = true.
+Proof.
+  unfold all_lines. intros H y Hy. rewrite forallb_forall in H.
+  specialize (H (Z.to_N y) (in_upto_144 y Hy)).
+  replace (Z.of_N (Z.to_N y)) with y in H by lia. exact H.
+Qed.
+
+Lemma lines_ok_b_sound s : all_lines (line_ok_b s) = true -> forall y, (0 <= y < 144)%Z -> line_ok s y.
+Proof.
+  intros H y Hy. apply line_ok_b_sound. apply (all_lines_sound (line_ok_b s) H y Hy).
+Qed.
+
+Lemma byte_mem_empty : byte_mem (Mem.empty 0).
+Proof. intros a. rewrite Mem.get_empty. lia. Qed.
+
+Lemma byte_mem_set m a v : byte_mem m -> v < 256 -> byte_mem (Mem.set m a v).
+Proof. intros Hm Hv b. rewrite Mem.gsspec. destruct (a =? b); [exact Hv | apply Hm]. Qed.
+
+(* memories given by a list of (address, byte) pairs over a zeroed store, for concrete examples *)
+Definition mem_of_list (l : list (N * N)) : Mem.t := fold_left (fun m p => Mem.set m (fst p) (snd p)) l (Mem.empty 0).
+
+Lemma byte_mem_of_list l : forallb (fun p => snd p <? 256) l = true -> byte_mem (mem_of_list l).
+Proof.
+  unfold mem_of_list. generalize byte_mem_empty. generalize (Mem.empty 0).
+  induction l as [|p l IH]; intros m Hm H; cbn [fold_left]; [exact Hm|].
+  cbn [forallb] in H. apply andb_prop in H. destruct H as [Hp Hl].
+  apply IH; [|exact Hl]. apply byte_mem_set; [exact Hm | apply N.ltb_lt; exact Hp].
+Qed.
